@@ -84,7 +84,11 @@ class Env:
                 'url_endpoint': "http://localhost:9/sparql", 'rdflib_graph': self.graph,
                 'target_classes': [EX + "C"], 'file_target_classes': self.tc, 'shape_map_file': self.sm,
                 'shape_map_raw': "<http://example.org/a>@<http://example.org/S>"}
-        if empty:
+        if empty == 'source':
+            # an empty but present graph (a Graph() to be filled later, an empty document) next to VALID targets / shape maps
+            import rdflib
+            vals.update({'rdflib_graph': rdflib.Graph()})       # ("" is not a document in every syntax - RDF/XML, JSON-LD - an empty Graph is always a graph)
+        elif empty:
             # present but empty: an argument that is given is given, whatever its truth value
             import rdflib
             vals.update({'raw_graph': "", 'rdflib_graph': rdflib.Graph(), 'target_classes': [], 'shape_map_raw': "",
@@ -273,6 +277,17 @@ def run(ctx):
             if spec == "ok" and out_e == "ValueError" and not (v['shape_map_raw'] or v['shape_map_file']) and len(violations) < 10:
                 violations.append({"what": "a valid combination of arguments is rejected with ValueError when an argument is empty (\"\", [], empty Graph)",
                                    "args": v, "constructor": out_e, "expected": spec})
+        # an empty graph with valid targets (shape maps included: they are built in the constructor, from the graph that was given)
+        stats["empty_source_vectors"] = 0
+        for i, v in enumerate(vecs):
+            if not v['rdflib_graph'] or not valid_init(v):
+                continue
+            stats["empty_source_vectors"] += 1
+            out_s, _ = real_init(env, v, call=False, empty='source')
+            out_n, _ = real_init(env, v, call=False)
+            if out_s != out_n and len(violations) < 10:
+                violations.append({"what": "the constructor answers differently when the rdflib Graph given is empty than when it is not",
+                                   "args": v, "constructor": out_s, "with_a_non_empty_graph": out_n})
         # call-time guards: on a fresh Shaper and on one that has already produced shapes
         # (a guard that only runs on the first pass of the pipeline is not "up front")
         from shexer.shaper import Shaper
